@@ -301,9 +301,11 @@ Proof.
   intros I W Hi A. destruct e as [k|c].
   - unfold next. cbn [step fst]. apply alive_false. intros k' Hk' E.
     pose proof (proj1 (alive_false w i) A) as Nw.
-    destruct k as [q t pp|q|q|d]; cbn [kstep table] in Hk'.
+    destruct k as [q t pp cm|q|q|q|d]; cbn [kstep table] in Hk'.
     + apply in_app_iff in Hk' as [Hk'|[Hk'|[]]]; [eapply Nw; eauto|].
       subst k'. cbn [kinc] in E. apply (inv_lt _ I) in Hi. lia.
+    + apply in_map_iff in Hk' as [k0 [E0 Hk0]]. subst k'.
+      apply (Nw k0 Hk0). destruct (kpid k0 =? q); auto.
     + apply in_map_iff in Hk' as [k0 [E0 Hk0]]. subst k'.
       apply (Nw k0 Hk0). destruct (kpid k0 =? q); auto.
     + apply filter_In in Hk' as [Hk' _]. eapply Nw; eauto.
@@ -419,10 +421,12 @@ Qed.
 
 (* ================================================================ the hypotheses are inhabited *)
 Definition ex_reuse : list ev :=
-  [EK (Spawn 5 100 1); EC (New 5); EK (Exit 5); EK (Reap 5); EC (IsRunning 0); EK (Spawn 5 900 1)].
-Definition ex_gone : list ev := [EK (Spawn 5 100 1); EC (New 5); EK (Reap 5)].
+  [EK (Spawn 5 100 1 [97; 32; 98]); EC (New 5); EK (Exit 5); EK (Reap 5); EC (IsRunning 0);
+   EK (Spawn 5 101 1 [97; 32; 98])].
+Definition ex_gone : list ev := [EK (Spawn 5 100 1 [112]); EC (New 5); EK (Reap 5)].
 Definition ex_live : list ev :=
-  [EK (Spawn 5 100 1); EC (New 5); EK (ClockStep 3); EC BootTime; EC (New 5); EK (Exit 5)].
+  [EK (Spawn 5 100 1 [97; 32; 98; 32; 99]); EC (New 5); EK (ClockStep 3); EC BootTime; EK (SpawnThread 5);
+   EC (New 5); EK (Exit 5)].
 
 Lemma ex_reuse_ok :
   wf_hist ex_reuse = true /\ has_obj (run ex_reuse) 0 = true
